@@ -2,8 +2,10 @@
    Reader model to the underlying ReadSeeker is the compressed extent of one index
    record; a Seek touches at most the record holding the target; a Read of n bytes at
    logical position lp opens, in order, only records that start after the current one
-   and strictly before lp + n. Nothing depends on the size of the stream or on the
-   distance of the target from the start. *)
+   and strictly before lp + n - or exactly at lp + n when the record before it ends there
+   and its decompressor returns io.EOF together with its last bytes (Reader.z_joined: the
+   Reader then moves on to the next record in the same call). Nothing depends on the size
+   of the stream or on the distance of the target from the start. *)
 From V Require Import Base.Prelude Base.Prog Meta.Model Flate.Spec
   XFlate.Index XFlate.Search XFlate.Reader XFlate.Refine.
 Local Open Scope Z_scope.
@@ -17,6 +19,7 @@ Notation endp := (Refine.endp T).
 Notation pv := (Refine.pv T).
 Notation cu := (Refine.cu T).
 Notation Cur := (Refine.Cur data T content).
+Notation joined := (Refine.joined data T).
 
 (* the compressed extent of record j *)
 Definition extent (j : Z) : N * N :=
@@ -68,11 +71,16 @@ Qed.
 
 (* [extent L] is the empty extent at the end of the last record (the end-of-data sentinel) *)
 Definition opened (k lp : Z) (n : N) (e : N * N) : Prop :=
-  exists j, (k < j <= L \/ j = L) /\ e = extent j /\ RawOffset (pv j) < lp + zN n.
+  exists j, (k < j <= L \/ j = L) /\ e = extent j /\
+    (RawOffset (pv j) < lp + zN n \/ (RawOffset (pv j) = lp + zN n /\ joined (j - 1) = true)).
 
 Lemma opened_weaken k k' lp lp' n n' e :
   k <= k' -> lp' + zN n' <= lp + zN n -> opened k' lp' n' e -> opened k lp n e.
-Proof. intros Hk Hl [j [H1 [H2 H3]]]. exists j. repeat split; try lia; assumption. Qed.
+Proof.
+  intros Hk Hl [j [H1 [H2 H3]]]. exists j. split; [lia|]. split; [exact H2|].
+  destruct H3 as [H3|[H3 H4]]; [left; lia|].
+  destruct (Z.eq_dec (lp' + zN n') (lp + zN n)) as [E|E]; [right; split; [lia | exact H4] | left; lia].
+Qed.
 
 Lemma read_loop_log : forall fuel s n acc pos k,
   Cur s pos k -> r_err s = None ->
@@ -82,28 +90,30 @@ Lemma read_loop_log : forall fuel s n acc pos k,
 Proof.
   induction fuel as [|f IH]; intros s n acc pos k C He.
   { exists []. cbn [read_loop snd]. rewrite app_nil_r. split; [reflexivity | constructor]. }
-  cbn [read_loop]. rewrite He.
   pose proof (c_k _ _ _ _ _ _ C) as Hk. pose proof (c_pos _ _ _ _ _ _ C) as Hp.
   destruct (n =? 0)%N eqn:En.
-  { exists []. cbn [snd]. rewrite app_nil_r. split; [reflexivity | constructor]. }
+  { apply N.eqb_eq in En. subst n. rewrite (read_loop_zero f s acc He).
+    exists []. cbn [snd]. rewrite app_nil_r. split; [reflexivity | constructor]. }
   apply N.eqb_neq in En.
   destruct (0 <? r_discard s) eqn:Ed.
   - apply Z.ltb_lt in Ed. pose proof (c_disc _ _ _ _ _ _ C) as Hd.
-    replace (Z.to_N (r_discard s) <=? N.of_nat (length (z_rest (r_zr s))))%N with true
-      by (symmetry; apply N.leb_le; lia).
-    change (read_loop f _ n acc) with (read_loop f (discard_state s) n acc).
+    rewrite (read_loop_discard_step f s n acc He En Ed) by (try exact (c_zend _ _ _ _ _ _ C); lia).
     destruct (IH (discard_state s) n acc pos k (discard_cur data T content Hh s pos k C He Ed) eq_refl)
       as [extra [H1 H2]].
     exists extra. split; [exact H1 | exact H2].
   - apply Z.ltb_ge in Ed. pose proof (c_disc _ _ _ _ _ _ C) as Hd.
     assert (Hd0 : r_discard s = 0) by lia.
     destruct (z_rest (r_zr s)) as [|b rest] eqn:Hz.
-    + rewrite (zr_read_nil _ _ Hz), (c_zend _ _ _ _ _ _ C).
+    + cbn [read_loop]. rewrite He.
+      replace (n =? 0)%N with false by (symmetry; apply N.eqb_neq; exact En).
+      replace (0 <? r_discard s) with false by (symmetry; apply Z.ltb_ge; exact Ed).
+      rewrite (zr_read_nil _ _ Hz), (c_zend _ _ _ _ _ _ C).
       destruct (chunk_end_spec data T content Hh s pos k C He Hd0 Hz) as [C' [E1 [E2 Hlp]]]. cbv zeta in *.
       pose proof (chunk_end_log s pos k C He Hd0 Hz) as Hlog.
       set (k' := Z.min (k + 1) L) in *.
       assert (Hfirst : opened k (Z.min pos endp) n (extent k')).
       { exists k'. split; [unfold k'; pose proof (L_pos data T content Hh); lia|]. split; [reflexivity|].
+        left.
         (* RawOffset (pv k') = RawOffset (cu k) = lp *)
         rewrite Hlp. unfold zN.
         destruct (Z.eq_dec k L) as [->|Hn].
@@ -124,19 +134,53 @@ Proof.
         -- constructor; [exact Hfirst|].
            eapply Forall_impl; [|exact H2]. intros e. apply opened_weaken; unfold k'; lia.
     + assert (Hne : z_rest (r_zr s) <> []) by (rewrite Hz; discriminate).
-      rewrite (zr_read_cons _ _ Hne).
+      rewrite (read_loop_data_step f s n acc He En Ed Hne). cbv zeta.
       destruct (data_cur data T content Hh s pos k n C He Hd0 Hne) as [C' [Hpe [Hchunk Hpm]]]. cbv zeta in *.
+      rewrite <- Hz in *.
       set (chunk := firstn (N.to_nat n) (z_rest (r_zr s))) in *.
       set (m := length chunk) in *.
       assert (Hmn : (m <= N.to_nat n)%nat).
       { unfold m, chunk. rewrite firstn_length. lia. }
-      change (read_loop f _ (n - N.of_nat m) (acc ++ chunk))
-        with (read_loop f (data_state s n) (n - N.of_nat m) (acc ++ chunk)).
-      destruct (IH (data_state s n) (n - N.of_nat m)%N (acc ++ chunk) (pos + Z.of_nat m) k C' eq_refl)
-        as [extra [H1 H2]].
-      exists extra. split; [exact H1|].
-      eapply Forall_impl; [|exact H2]. intros e. apply opened_weaken; [lia|].
-      rewrite !Z.min_l by lia. unfold zN. lia.
+      assert (Hm1 : (1 <= m)%nat).
+      { unfold m, chunk. rewrite firstn_length, Hz. cbn [length]. lia. }
+      destruct (zr_status_now (r_zr (data_state s n))) eqn:Ej.
+      * (* the chunk ends in this call: the next record is opened *)
+        rewrite (c_zend _ _ _ _ _ _ C).
+        pose proof (zr_status_now_nil _ Ej) as Hz'.
+        destruct (chunk_end_spec data T content Hh (data_state s n) (pos + Z.of_nat m) k C' eq_refl eq_refl Hz')
+          as [C'' [E1 [E2 Hlp]]]. cbv zeta in *.
+        pose proof (chunk_end_log (data_state s n) (pos + Z.of_nat m) k C' eq_refl eq_refl Hz') as Hlog.
+        change (r_log (data_state s n)) with (r_log s) in Hlog.
+        pose proof (c_zlen _ _ _ _ _ _ C) as Hlen.
+        assert (Hl : (1 <= length (z_rest (r_zr s)))%nat) by (rewrite Hz; cbn [length]; lia).
+        assert (Hkl : k <> L).
+        { intros ->. rewrite (cu_L_rsize T) in Hlen. unfold zN in *. lia. }
+        replace (Z.min (k + 1) L) with (k + 1) in * by lia.
+        assert (Hj : joined k = true).
+        { rewrite <- (c_joined _ _ _ _ _ _ C).
+          unfold zr_status_now in Ej. apply andb_true_iff in Ej. exact (proj1 Ej). }
+        assert (Hfirst : opened k (Z.min pos endp) n (extent (k + 1))).
+        { exists (k + 1). split; [lia|]. split; [reflexivity|].
+          rewrite (pv_succ T k) by lia. rewrite <- Hlp. rewrite !Z.min_l by lia.
+          replace (k + 1 - 1) with k by lia.
+          destruct (Z.eq_dec (Z.of_nat m) (zN n)) as [E|E]; [right; split; [lia | exact Hj] | left; unfold zN in *; lia]. }
+        destruct (n - N.of_nat m =? 0)%N eqn:En'.
+        -- exists [extent (k + 1)]. cbn [snd]. split; [exact Hlog | constructor; [exact Hfirst | constructor]].
+        -- destruct (r_err (chunk_end (data_state s n))) as [e|] eqn:Ee.
+           ++ exists [extent (k + 1)]. split; [|constructor; [exact Hfirst | constructor]].
+              destruct f as [|f']; cbn [read_loop]; [|rewrite Ee]; cbn [snd]; exact Hlog.
+           ++ destruct (IH (chunk_end (data_state s n)) (n - N.of_nat m)%N (acc ++ chunk) (pos + Z.of_nat m) (k + 1) C'' Ee)
+                as [extra [H1 H2]].
+              exists (extent (k + 1) :: extra). split.
+              ** rewrite H1, Hlog, <- app_assoc. reflexivity.
+              ** constructor; [exact Hfirst|].
+                 eapply Forall_impl; [|exact H2]. intros e. apply opened_weaken; [lia|].
+                 rewrite !Z.min_l by lia. unfold zN. lia.
+      * destruct (IH (data_state s n) (n - N.of_nat m)%N (acc ++ chunk) (pos + Z.of_nat m) k C' eq_refl)
+          as [extra [H1 H2]].
+        exists extra. split; [exact H1|].
+        eapply Forall_impl; [|exact H2]. intros e. apply opened_weaken; [lia|].
+        rewrite !Z.min_l by lia. unfold zN. lia.
 Qed.
 
 Theorem read_log s n pos k :
@@ -179,17 +223,66 @@ Proof.
       unfold close. destruct (r_err s) as [[]|]; reflexivity.
 Qed.
 
-Theorem run_log ops : forall s st,
-  Rel data T content s st ->
+(* the cursor invariant alone is kept by every call *)
+Definition Inv (s : xr) : Prop := r_err s = Some EClosed \/ exists pos k, Cur s pos k.
+
+Lemma rel_inv s st : Rel data T content s st -> Inv s.
+Proof. intros [[_ E]|[k [C _]]]; [left; exact E | right; exists (sp_pos st), k; exact C]. Qed.
+
+Lemma step_inv s o : Inv s -> Inv (snd (rstep s o)).
+Proof.
+  intros [E|[pos [k C]]].
+  - (* closed: the state does not change *)
+    destruct o as [off wh | n |]; cbn [rstep].
+    + rewrite seek_unfold. unfold blocked. rewrite E. left; exact E.
+    + rewrite (read_sticky' s n EClosed E). left; exact E.
+    + unfold close. rewrite E. left; exact E.
+  - assert (R : Rel data T content s (mkSp pos (r_err s))) by (right; exists k; split; [exact C | reflexivity]).
+    destruct o as [off wh | n |]; cbn [rstep].
+    + destruct (seek_refines data T content Hh s _ off wh R) as [[p e] [s' [st' [H1 [_ H3]]]]].
+      rewrite H1. cbn [snd]. exact (rel_inv _ _ H3).
+    + destruct (r_err s) as [e|] eqn:Ee.
+      * rewrite (read_sticky' s n e Ee). right; exists pos, k; exact C.
+      * destruct (n =? 0)%N eqn:En.
+        -- apply N.eqb_eq in En. subst n. rewrite read_zero'. right; exists pos, k; exact C.
+        -- pose proof (c_k _ _ _ _ _ _ C) as Hk.
+           assert (Hf : (2 * Z.to_nat (L - k) + N.to_nat n + (if (0 <? r_discard s)%Z then 1 else 0) + 2
+                         <= 2 * length (r_recs s) + N.to_nat n + 8)%nat).
+           { rewrite (c_recs _ _ _ _ _ _ C). unfold Refine.L, zlen in *. destruct (0 <? r_discard s); lia. }
+           destruct (read_loop_spec data T content Hh _ s n [] pos k C Ee Hf) as [s' [Hrun Hpost]].
+           unfold read. rewrite Hrun.
+           destruct (N.to_nat n <=? length (avail T content pos))%nat;
+             destruct Hpost as [[k' C'] _]; cbn [snd]; right; eexists _, k'; exact C'.
+    + destruct (close_refines data T content s _ R) as [e [s' [st' [H1 [_ H3]]]]].
+      rewrite H1. cbn [snd]. exact (rel_inv _ _ H3).
+Qed.
+
+Lemma step_log_inv s o :
+  Inv s ->
+  exists extra, r_log (snd (rstep s o)) = r_log s ++ extra /\ Forall is_extent extra.
+Proof.
+  intros [E|[pos [k C]]].
+  - apply (step_log s (mkSp 0 (Some EClosed)) o). left. split; [reflexivity | exact E].
+  - apply (step_log s (mkSp pos (r_err s)) o). right. exists k. split; [exact C | reflexivity].
+Qed.
+
+Lemma run_log_inv ops : forall s,
+  Inv s ->
   exists extra, r_log (snd (rrun s ops)) = r_log s ++ extra /\ Forall is_extent extra.
 Proof.
-  induction ops as [|o ops IH]; intros s st R.
+  induction ops as [|o ops IH]; intros s I.
   - exists []. cbn [rrun snd]. rewrite app_nil_r. split; [reflexivity | constructor].
   - cbn [rrun].
-    destruct (step_refines data T content Hh s st o R) as [ob [s' [st' [H1 [_ H3]]]]].
-    destruct (step_log s st o R) as [e1 [L1 F1]]. rewrite H1 in *. cbn [snd] in L1.
-    destruct (IH s' st' H3) as [e2 [L2 F2]].
+    pose proof (step_inv s o I) as I'.
+    destruct (step_log_inv s o I) as [e1 [L1 F1]].
+    destruct (rstep s o) as [ob s'] eqn:Es. cbn [snd] in *.
+    destruct (IH s' I') as [e2 [L2 F2]].
     destruct (rrun s' ops) as [obs s''] eqn:Er. cbn [snd] in *.
     exists (e1 ++ e2). split; [rewrite L2, L1, app_assoc; reflexivity | apply Forall_app; split; assumption].
 Qed.
+
+Theorem run_log ops : forall s st,
+  Rel data T content s st ->
+  exists extra, r_log (snd (rrun s ops)) = r_log s ++ extra /\ Forall is_extent extra.
+Proof. intros s st R. exact (run_log_inv ops s (rel_inv s st R)). Qed.
 End Locality.
